@@ -94,7 +94,7 @@ def check_sweep(project: Project, rep, max_bars=2, sample3=0):
             I, me = run_class(project, fi, ranks)
         except AnalysisError as ex:
             msg = str(ex)
-            if "still running after" in msg and not has_dup:
+            if "still running after" in msg and "not exact" not in msg and not has_dup:
                 rep.refuted("LX-SWEEP", fi, fi.node, f"bars with end-points ordered as {bars_r}: the sweep does not terminate",
                             construct=f"{fi.qualname}: sweep", failing_input=str(bars_r))
                 return "refuted"
